@@ -396,6 +396,32 @@ def r4(ctx):
         reach = [s for s in (-1, 0, 0x30) if ev.may_hold([z for z in facts_at(tr[0]) if z.origin == "arm" and "registrationStatus" in norm(z.test)][:1], {"self.registrationStatus": s})]
         ok = reach == [0] and st and st[0].lineno < tr[0].lineno
     ctx.check("Foreign.confirmation:ack-starts-tracking", ok, where(m, f), "expiry tracking starts when (and only when) the BBMD acknowledged with result 0")
+    # every acknowledgement re-arms the expiry - also the one that repeats the status the device already has (a renewal):
+    # decided on the paths of the handler with the status store followed
+    from .common import path_value
+    okr = True
+    n_ack = 0
+    why = ""
+    fpaths = [p_ for p_ in enumerate_paths(f) if p_.term != "raise"]
+    for before in (-1, 0):
+        for code in (0, 0x30):
+            env = {"self.registrationStatus": before, "%s.bvlciResultCode" % p: code, "isinstance:%s" % p: "Result",
+                   "%s.pduSource != self.bbmdAddress" % p: False, "%s.pduSource == self.bbmdAddress" % p: True}
+            for p_ in fpaths:
+                kind, _ = path_value(p_, ev, env, "<feasibility>")
+                if kind == "infeasible":
+                    continue
+                tracks = any(e.kind == "stmt" and any(norm(x.func) == "self._start_track_registration" for x in calls_in(e.node)) for e in p_.events)
+                if code == 0:
+                    n_ack += 1
+                    if not tracks:
+                        okr = False
+                        why = "status %d, result 0: %s" % (before, p_.describe()[:140])
+                elif tracks:
+                    okr = False
+                    why = "result 0x30 starts tracking"
+    ctx.check("Foreign.confirmation:every-ack-re-arms", okr and n_ack >= 2, where(m, f),
+              "each result 0 from the BBMD - the first and every renewal - must restart the expiry tracking (%s)" % why)
     s = c.methods.get("_start_track_registration")
     it = [x for x in calls_in(s) if norm(x.func).endswith("_registration_timeout_task.install_task")] if s else []
     ok = len(it) == 1
